@@ -241,9 +241,10 @@ def grid(numblocks):
 
 
 def layer_keys_ok(E, layer, name, numblocks, label="keys"):
-    """The layer defines exactly the output grid under `name` (other keys are auxiliary)."""
+    """The layer defines every key of the output grid under `name`, and no block key (name, *integers of the array's rank) outside it; other
+    keys -- also auxiliary ones under the same name such as cumsum's (name, 'extra', i) -- are not the grid's business."""
     want = {(name,) + g for g in grid(numblocks)}
-    have = {k for k in layer if isinstance(k, tuple) and k and k[0] == name}
+    have = {k for k in layer if isinstance(k, tuple) and k and k[0] == name and len(k) == 1 + len(numblocks) and all(isinstance(i, (int, np.integer)) for i in k[1:])}
     ok = E.ensure(f"{label}-grid", have == want)
     return ok
 
@@ -272,4 +273,9 @@ def run_blocks(E, dsk, name, chunks, label="blocks", kernels=None, check_shapes=
                 raise core._Abort()
             E.ensure(f"{label}-advertised-shape", AND(*[b.shape[a] == chunks[a][g[a]] for a in range(len(chunks))])
                      if chunks else True)
+    if numblocks and not blocks:
+        # an empty grid (some axis has no block at all): there is no block to look at and the whole has no elements
+        import z3
+
+        return SArr(tuple(sum(c) for c in chunks), lambda idx: z3.RealVal(0)), r
     return assemble(blocks, numblocks), r
